@@ -1,6 +1,13 @@
 package sym
 
-import "gowp/smt"
+import (
+	"go/types"
+	"strings"
+
+	"golang.org/x/tools/go/ssa"
+
+	"gowp/smt"
+)
 
 // registerReflectLib installs the assumed contracts of reflect / xreflect accessors (see reflectlib.go).
 func (x *Exec) registerReflectLib() { x.registerReflect() }
@@ -43,6 +50,36 @@ func (x *Exec) factorPCs(pcs []*smt.Term) (*smt.Term, []*smt.Term) {
 		rests[i] = x.B.And(r...)
 	}
 	return x.B.And(common...), rests
+}
+
+// splitSelector: two paths that split on a condition c are distinguished by c alone (what each
+// path assumed afterwards need not be part of the selector of merged values).
+func (x *Exec) splitSelector(pa, pb, fallback *smt.Term) *smt.Term {
+	inB := map[int]bool{}
+	for _, c := range conjuncts(pb) {
+		inB[c.ID] = true
+	}
+	inA := map[int]bool{}
+	for _, c := range conjuncts(pa) {
+		inA[c.ID] = true
+	}
+	var fa, fb *smt.Term
+	for _, c := range conjuncts(pa) {
+		if !inB[c.ID] {
+			fa = c
+			break
+		}
+	}
+	for _, c := range conjuncts(pb) {
+		if !inA[c.ID] {
+			fb = c
+			break
+		}
+	}
+	if fa != nil && fb != nil && x.B.Not(fa) == fb {
+		return fa
+	}
+	return fallback
 }
 
 // freeBound lists the bound variables that occur free in t (outside the quantifier declaring them).
@@ -89,4 +126,132 @@ func (x *Exec) elemAt(contents, off, k *smt.Term) *smt.Term {
 		B.AddAxiom(name, B.Forall([]*smt.Term{a, o, i}, B.Eq(B.UF(name, contents.S.Elem, a, o, i), B.Select(a, B.BVBin("bvadd", o, i)))))
 	}
 	return B.UF(name, contents.S.Elem, contents, off, k)
+}
+
+func clipS(s string, n int) string {
+	if len(s) > n {
+		return s[:n] + "..."
+	}
+	return s
+}
+
+// Describe says how a callee is treated: contract, library model, inlined, or arbitrary.
+func (x *Exec) Describe(fn *ssa.Function) string {
+	if x.libModel(fn) != nil {
+		return "[library model]"
+	}
+	if sp := x.specFor(fn); sp != nil {
+		s := "[contract"
+		for k := range sp.Flags {
+			s += " " + k
+		}
+		return s + "]"
+	}
+	if len(fn.Blocks) > 0 && fn.Pkg != nil && strings.HasPrefix(fn.Pkg.Pkg.Path(), modulePath) && x.smallEnough(fn) {
+		return "[inlined]"
+	}
+	return "[ARBITRARY]"
+}
+
+// simplifyUnder rewrites ite(c, a, b) nodes whose condition is decided by the conjuncts of the
+// path condition pc (merged memory leaves such nodes behind on paths that already determine c).
+func (x *Exec) simplifyUnder(pc, t *smt.Term) *smt.Term {
+	have := map[int]bool{}
+	for _, c := range conjuncts(pc) {
+		have[c.ID] = true
+	}
+	B := x.B
+	_, pins := propagate(pc)
+	sub := map[*smt.Term]*smt.Term{}
+	for _, c := range conjuncts(pc) {
+		if c.Op == "=" && len(c.Args) == 2 {
+			for i := 0; i < 2; i++ {
+				if p, ok := pins[c.Args[i].ID]; ok && !c.Args[i].IsConst() {
+					sub[c.Args[i]] = p
+				}
+			}
+		}
+	}
+	decide := func(c *smt.Term) (bool, bool) {
+		allTrue := true
+		for _, k := range conjuncts(c) {
+			if have[k.ID] {
+				continue
+			}
+			if have[B.Not(k).ID] {
+				return false, true
+			}
+			if len(sub) > 0 {
+				ks := B.Subst(k, sub)
+				if ks.IsTrue() {
+					continue
+				}
+				if ks.IsFalse() {
+					return false, true
+				}
+			}
+			allTrue = false
+		}
+		if allTrue {
+			return true, true
+		}
+		return false, false
+	}
+	memo := map[int]*smt.Term{}
+	var rec func(t *smt.Term) *smt.Term
+	rec = func(t *smt.Term) *smt.Term {
+		if len(t.Args) == 0 {
+			return t
+		}
+		if r, ok := memo[t.ID]; ok {
+			return r
+		}
+		var r *smt.Term
+		if t.Op == "ite" {
+			if v, ok := decide(t.Args[0]); ok {
+				if v {
+					r = rec(t.Args[1])
+				} else {
+					r = rec(t.Args[2])
+				}
+				memo[t.ID] = r
+				return r
+			}
+		}
+		args := make([]*smt.Term, len(t.Args))
+		ch := false
+		for i, a := range t.Args {
+			args[i] = rec(a)
+			if args[i] != a {
+				ch = true
+			}
+		}
+		r = t
+		if ch {
+			r = B.Rebuild(t, args)
+		}
+		memo[t.ID] = r
+		return r
+	}
+	return rec(t)
+}
+
+// fieldByName gives the address and type of a (possibly promoted) field of a heap object.
+func (x *Exec) fieldByName(obj Value, objT types.Type, name string) (Value, types.Type) {
+	su, ok := objT.Underlying().(*types.Struct)
+	if !ok {
+		specErr("%s is not a struct", objT)
+	}
+	path := findField(su, name)
+	if path == nil {
+		specErr("type %s has no field %s", objT, name)
+	}
+	cur := obj
+	curT := objT
+	for _, idx := range path {
+		fld := curT.Underlying().(*types.Struct).Field(idx)
+		cur = x.fieldAddr(cur, curT, idx)
+		curT = fld.Type()
+	}
+	return cur, curT
 }
